@@ -15,5 +15,5 @@ CONSTANTS
   MaxLawValues = 8
   PairMode = TRUE
   Vals = {0, 1}
-INVARIANTS ImplMeetsDecl ImplMeetsProp NoneOnlyFromNaN IgnoredIrrelevant Laws
+CONSTRAINT CorpusOnly
 CHECK_DEADLOCK FALSE
